@@ -132,11 +132,23 @@ SampleQ(r, size) == BNMod(BNLowBits(r, 128), size)
 RECURSIVE SortStrQ(_)
 SortStrQ(T) == IF T = {} THEN <<>> ELSE LET m == CHOOSE m \in T : \A y \in T : BNLeq(m, y) IN <<m>> \o SortStrQ(T \ {m})
 LogEval == BNToInt(BNAdd(pr.log_trace, pr.log_cosets))
+\* When the proof file carries Stone's own log of the interaction (field ann, lexed by the harness independently of
+\* the parser), the verifier's challenges must be the ones the prover logged: interaction elements, constraint
+\* coefficient seed, out-of-domain point, DEEP coefficient seed, FRI evaluation points, and the query set.
+StoneAgrees(qout) ==
+    ("ann" \in DOMAIN pr) =>
+        /\ SubSeq(sk.chal, 1, pr.n_ie) = pr.ann.ie
+        /\ sk.chal[pr.n_ie + 1] = pr.ann.alpha
+        /\ sk.chal[pr.n_ie + 2] = pr.ann.z
+        /\ sk.chal[pr.n_ie + 3] = pr.ann.alpha2
+        /\ fri.sq = pr.ann.evalpts
+        /\ qout = SortStrQ({pr.ann.queries[i] : i \in 1..Len(pr.ann.queries)})
 QueriesEv ==
     /\ Is("queries") /\ sk.stage = "commit_ok" /\ Consume
     /\ Ev.n = pr.n_queries /\ BNOf(Len(sk.raws)) = pr.n_queries
     /\ Ev.bound = BNPow2(LogEval)
     /\ Ev.out = SortStrQ({SampleQ(sk.raws[i], Ev.bound) : i \in 1..Len(sk.raws)})
+    /\ StoneAgrees(Ev.out)
     /\ sk' = [sk EXCEPT !.stage = "dec", !.queries = Ev.out, !.ndec = 0]
     /\ UNCHANGED lower
 
